@@ -558,7 +558,8 @@ fn memory_store() -> SimResult {
     let mut s = kad::store::MemoryStore::with_config(local, cfg.clone());
     let keys: Vec<kad::RecordKey> = (0..5u8).map(|i| kad::RecordKey::new(&[b'k', i])).collect();
     let provs: Vec<PeerId> = vec![local, peer(), peer(), peer()];
-    let mut recs: BTreeMap<usize, Vec<u8>> = BTreeMap::new();
+    let mut recs: BTreeMap<usize, (Vec<u8>, Option<PeerId>, Option<web_time::Instant>)> = BTreeMap::new();
+    let t0 = web_time::Instant::now();
     let mut pmodel: BTreeMap<usize, Vec<(usize, u32)>> = BTreeMap::new(); // key -> [(provider, generation)]
     let mut gen = 0u32;
     let steps = 15 + choose(100);
@@ -567,13 +568,24 @@ fn memory_store() -> SimResult {
         let k = choose(keys.len());
         match choose(10) {
             0..=2 => {
-                let len = choose(cfg.max_value_bytes + 3);
-                gen += 1;
-                let mut value = vec![0u8; len];
-                if len > 0 {
-                    value[0] = gen as u8;
-                }
-                let r = s.put(kad::Record { key: keys[k].clone(), value: value.clone(), publisher: None, expires: None });
+                // a fresh value, or (replication style) the value already stored with another publisher / expiry
+                let resend = choose(3) == 0 && recs.contains_key(&k);
+                let value = if resend {
+                    probe("put_same_value_again");
+                    recs[&k].0.clone()
+                } else {
+                    let len = choose(cfg.max_value_bytes + 3);
+                    gen += 1;
+                    let mut value = vec![0u8; len];
+                    if len > 0 {
+                        value[0] = gen as u8;
+                    }
+                    value
+                };
+                let len = value.len();
+                let publisher = if choose(3) == 0 { Some(provs[choose(provs.len())]) } else { None };
+                let expires = if choose(2) == 0 { Some(t0 + std::time::Duration::from_secs(1 + choose(5000) as u64)) } else { None };
+                let r = s.put(kad::Record { key: keys[k].clone(), value: value.clone(), publisher, expires });
                 let too_large = len >= cfg.max_value_bytes;
                 let full = !recs.contains_key(&k) && recs.len() >= cfg.max_records;
                 if too_large || full {
@@ -581,14 +593,14 @@ fn memory_store() -> SimResult {
                     ensure!(r.is_err(), "C41/put-accepted-over-limit", "put of {len} bytes (max_value_bytes {}) with {} of {} records stored was accepted", cfg.max_value_bytes, recs.len(), cfg.max_records);
                 } else {
                     ensure!(r.is_ok(), "C41/put-refused", "put of {len} bytes within all limits was refused: {r:?}");
-                    if recs.insert(k, value).is_some() {
+                    if recs.insert(k, (value, publisher, expires)).is_some() {
                         replaced += 1;
                     }
                 }
             }
             3 | 4 => {
-                let got = s.get(&keys[k]).map(|r| r.value.clone());
-                ensure!(got.as_ref() == recs.get(&k), "C41/get-mismatch", "get returned {got:?}, the latest put is {:?}", recs.get(&k));
+                let got = s.get(&keys[k]).map(|r| (r.value.clone(), r.publisher, r.expires));
+                ensure!(got.as_ref() == recs.get(&k), "C41/get-mismatch", "get returned (value, publisher, expires) {got:?}, the latest put is {:?}", recs.get(&k));
             }
             5 => {
                 s.remove(&keys[k]);
